@@ -150,3 +150,52 @@ package interp
 //@   step [next] argument-checked-at-its-position: called(argument) && lastArg(argument, 1) == fun.typ && lastArg(argument, 2) == i && lastArg(argument, 3) == len(child) && lastArg(argument, 4) == (ellipsis && i == len(child) - 1) && lastRes(argument, 0) == nil
 //@   step [next] the-argument-itself: lastArg(argument, 0).nod == params[i].nod && lastArg(argument, 0).typ == params[i].typ
 //@   canary err == nil
+
+// Builtin calls: the argument count fits the builtin, `...` is allowed with append only, and each builtin
+// accepts only the operand types the Go specification gives it.
+//@ trusted func arrayDeref(typ) (r)
+//@   pure
+//@ pred ptype(p): ite(p.typ != nil, p.typ, p.nod.typ)
+//@ func (check typecheck) builtin(name, n, child, ellipsis) (err)
+//@   props C12
+//@   ints math
+//@   opt safety = off
+//@   opt inline = Type
+//@   opt loops = havoc
+//@   opt opaque-calls = *
+//@   opt opaque-havoc = none
+//@   requires [assume] n != nil && forall(k, 0, len(child), child[k] != nil && child[k].typ != nil)
+//@   ensures spread-only-with-append: err == nil && ellipsis ==> name == bltnAppend
+//@   ensures [local:nparams] argument-count-fits: err == nil && name != bltnMake ==> nparams >= fun.args && (fun.variadic || nparams <= fun.args)
+//@   ensures [local:t] append-to-a-slice: err == nil && name == bltnAppend ==> t != nil && t.Kind() == reflect.Slice
+//@   ensures [local:params] len-and-cap-operands: err == nil && (name == bltnLen || name == bltnCap) ==> arrayDeref(ptype(params[0])).TypeOf().Kind() == reflect.Array || arrayDeref(ptype(params[0])).TypeOf().Kind() == reflect.Slice || arrayDeref(ptype(params[0])).TypeOf().Kind() == reflect.Chan || (name == bltnLen && (arrayDeref(ptype(params[0])).TypeOf().Kind() == reflect.String || arrayDeref(ptype(params[0])).TypeOf().Kind() == reflect.Map))
+//@   ensures [local:params] close-a-channel-that-can-be-sent-on: err == nil && name == bltnClose ==> ptype(params[0]).TypeOf().Kind() == reflect.Chan && ptype(params[0]).TypeOf().ChanDir() != reflect.RecvDir
+//@   ensures [local:params] delete-from-a-map-with-an-assignable-key: err == nil && name == bltnDelete ==> ptype(params[0]).TypeOf().Kind() == reflect.Map && (ptype(params[0]).key != nil ==> ptype(params[1]).assignableTo(ptype(params[0]).key))
+//@   ensures [local:params] complex-of-two-floats-of-one-type: err == nil && name == bltnComplex ==> ptype(params[0]).equals(ptype(params[1])) && isFloat(ptype(params[0]).TypeOf())
+//@   ensures [local:params] real-and-imag-of-a-complex: err == nil && (name == bltnReal || name == bltnImag) ==> isComplex(ptype(params[0]).TypeOf())
+//@   ensures [local:t0] copy-needs-a-slice-destination: err == nil && name == bltnCopy ==> t0 != nil
+//@   ensures make-needs-a-slice-map-or-channel-type: err == nil && name == bltnMake ==> child[0].typ.TypeOf().Kind() == reflect.Slice || child[0].typ.TypeOf().Kind() == reflect.Map || child[0].typ.TypeOf().Kind() == reflect.Chan
+//@   ensures [local:nparams] make-argument-count: err == nil && name == bltnMake ==> nparams >= ite(child[0].typ.TypeOf().Kind() == reflect.Slice, 2, 1) && nparams <= ite(child[0].typ.TypeOf().Kind() == reflect.Slice, 3, 2)
+//@   ensures unknown-builtin-is-an-error: err == nil ==> name == bltnAppend || name == bltnCap || name == bltnLen || name == bltnClose || name == bltnComplex || name == bltnImag || name == bltnReal || name == bltnCopy || name == bltnDelete || name == bltnMake || name == bltnPanic || name == bltnPrint || name == bltnPrintln || name == bltnRecover || name == bltnNew || name == bltnAlignof || name == bltnOffsetof || name == bltnSizeof
+//@   canary err == nil
+
+// Struct literals of host types: the same rules as for script structs, against the reflect type — all keyed
+// (existing field, once) or all positional (one value per field, in order, exported fields only).
+//@ func (check typecheck) structBinLitExpr(child, typ) (err)
+//@   props C12
+//@   ints math
+//@   opt safety = off
+//@   opt opaque-calls = *
+//@   opt opaque-havoc = none
+//@   opt record-calls = FieldByName
+//@   requires [assume] typ != nil && typ.NumField() >= 0 && forall(k, 0, len(child), child[k] != nil && (child[k].kind == keyValueExpr ==> len(child[k].child) == 2 && child[k].child[0] != nil && child[k].child[1] != nil && child[k].child[0] != child[k].child[1]))
+//@   let keyed: len(child) > 0 && child[0].kind == keyValueExpr
+//@   ensures one-value-per-field-when-positional: err == nil && len(child) > 0 && !keyed ==> len(child) == typ.NumField()
+//@   loop 1 index k
+//@   step [next] no-positional-value-among-keyed-ones: child[k].kind == keyValueExpr
+//@   step [next] key-names-a-field-of-the-type: child[k].child[0].ident != "" && called(FieldByName) && lastArg(FieldByName, 0) == child[k].child[0].ident && lastRes(FieldByName, 1)
+//@   loop 2 index k
+//@   invariant not-more-values-than-fields-so-far: k <= typ.NumField()
+//@   step [next] no-keyed-value-among-positional-ones: child[k].kind != keyValueExpr
+//@   step [next] not-more-values-than-fields: k < typ.NumField()
+//@   canary err == nil
